@@ -8,7 +8,7 @@
     [step_self] = the per-action combination; [react_all] = one [react] per occurrence, in order;
     [step_abs] = the abstract per-argument fold; [enc k] = what a Count flag holds after k occurrences. *)
 From ClapModel Require Import Base.Bytes Base.Machine.
-From ClapModel Require Import Parse.Cmd Parse.Build Parse.Valid Parse.Matcher Parse.Errors Parse.Parser ParseProofs.Actions ParseProofs.ActionsLoop.
+From ClapModel Require Import Parse.Cmd Parse.Build Parse.Valid Parse.Matcher Parse.Errors Parse.Parser ParseProofs.Actions ParseProofs.ActionsLoop ParseProofs.ActionsTokens.
 From Coq Require Import ZArith.
 Open Scope N_scope.
 
@@ -219,3 +219,18 @@ Theorem C07_loop_count_cluster : forall c ch a n pos vaf st,
     groups_of (a_id a) (mt st') = enc (N.of_nat (S n)).
 Proof. exact parse_loop_count_cluster. Qed.
 Print Assumptions C07_loop_count_cluster.
+
+(** ---- tokens -> occurrences: the whole class of flag / cluster / one-value-option lines ----
+    [occurrences c toks] (ParseProofs/ActionsTokens.v) is a declarative scanner: long flags [--flag], short
+    clusters [-xyz] (optionally ended by a one-value option with its value attached, [-ov] / [-o=v]), one-value
+    options [--o=v], [--o v], [-o v] (a separate value does not start with [-]); every token checked not to be a
+    subcommand name.  For every such line and EVERY parser state (skip counter clear), the token loop ends in
+    [LDone] of a state computation [r], and [r] followed by the flush of the pending buffer equals the fold of
+    [react] over the scanned occurrences followed by the flush - errors and panic sites included. *)
+Theorem C07_loop_occurrences : forall c toks os pos vaf st,
+  no_hyphen_args c = true -> ids_ok c -> occurrences c toks = Some os -> fs_skip st = 0 ->
+  exists r : res ps,
+    parse_loop c toks (mkL PSValuesDone pos vaf false) st = (do s <- r; ROk (LDone s)) /\
+    (do s <- r; resolve_pending c s) = (do s <- react_all c os st; resolve_pending c s).
+Proof. exact parse_loop_occurrences. Qed.
+Print Assumptions C07_loop_occurrences.
